@@ -10,7 +10,7 @@
 From Coq Require Import List NArith Arith Bool Lia.
 From ApiFu Require Import Base.Sexp Vld.Ast Vld.AstInd Vld.Inspect Vld.InspectProofs Vld.TypeInfoModel Vld.TypeInfoPure
      Vld.Enumerate Vld.SpecEnum Vld.ValidatorModel Vld.ValidSpec Vld.Hyps Vld.ProofsCommon Vld.ProofsDirectives Vld.ProofsArguments
-     Vld.ProofsFragDecl Vld.ProofsOrder Vld.ProofsTotal Vld.ProofsFields Vld.ProofsSpreads Vld.ProofsMemo Vld.ValidatorProofs.
+     Vld.ProofsFragDecl Vld.ProofsOperations Vld.ProofsOrder Vld.ProofsTotal Vld.ProofsFields Vld.ProofsSpreads Vld.ProofsMemo Vld.ValidatorProofs.
 Import ListNotations.
 
 Definition all_primary (l : list verror) : Prop := forall e, In e l -> e_sec e = false.
@@ -175,15 +175,24 @@ End PrimaryRules.
 Lemma seq_outcome_done a b e : seq_outcome a b = Done e -> exists ea eb, a = Done ea /\ b = Done eb /\ e = ea ++ eb.
 Proof. destruct a as [ea | |]; destruct b as [eb | |]; simpl; try discriminate. intros H. inversion H. exists ea, eb. auto. Qed.
 
-Lemma all_rules_split q pi S F A errs :
-  all_rules q pi S F A = Done errs ->
+Definition rules_with (q : quirks) (pi : order) (S : schema) (F : features) (A : document) (rf : outcome) : outcome :=
+  fold_left seq_outcome
+    [rule_operations q A; rf; rule_arguments q pi S A; rule_fragments q pi S F A; rule_values q pi S A; rule_directives q S A; rule_variables pi S A]
+    rule_document.
+Lemma all_rules_with q pi S F A : all_rules q pi S F A = rules_with q pi S F A (rule_fields q pi S F A).
+Proof. reflexivity. Qed.
+Lemma all_rules_m_with q pi S F A : all_rules_m q pi S F A = rules_with q pi S F A (rule_fields_m q pi S F A).
+Proof. reflexivity. Qed.
+
+Lemma rules_with_split q pi S F A rf errs :
+  rules_with q pi S F A rf = Done errs ->
   exists e1 e2 e3 e5 e6 e7 e8,
-    rule_operations q A = Done e1 /\ rule_fields q pi S F A = Done e2 /\ rule_arguments q pi S A = Done e3 /\
+    rule_operations q A = Done e1 /\ rf = Done e2 /\ rule_arguments q pi S A = Done e3 /\
     rule_fragment_spreads q pi S F A = Done e5 /\ rule_values q pi S A = Done e6 /\ rule_directives q S A = Done e7 /\
     rule_variables pi S A = Done e8 /\
     errs = e1 ++ e2 ++ e3 ++ (rule_fragment_declarations pi S F A ++ e5) ++ e6 ++ e7 ++ e8.
 Proof.
-  unfold all_rules, rule_document, rule_fragments. cbn [fold_left]. intros H.
+  unfold rules_with, rule_document, rule_fragments. cbn [fold_left]. intros H.
   apply seq_outcome_done in H as [x7 [e8 [H [R8 ->]]]].
   apply seq_outcome_done in H as [x6 [e7 [H [R7 ->]]]].
   apply seq_outcome_done in H as [x5 [e6 [H [R6 ->]]]].
@@ -196,24 +205,107 @@ Proof.
   exists e1, e2, e3, e5, e6, e7, e8. repeat split; try assumption. simpl. rewrite <- !app_assoc. reflexivity.
 Qed.
 
+Lemma all_rules_split q pi S F A errs :
+  all_rules q pi S F A = Done errs ->
+  exists e1 e2 e3 e5 e6 e7 e8,
+    rule_operations q A = Done e1 /\ rule_fields q pi S F A = Done e2 /\ rule_arguments q pi S A = Done e3 /\
+    rule_fragment_spreads q pi S F A = Done e5 /\ rule_values q pi S A = Done e6 /\ rule_directives q S A = Done e7 /\
+    rule_variables pi S A = Done e8 /\
+    errs = e1 ++ e2 ++ e3 ++ (rule_fragment_declarations pi S F A ++ e5) ++ e6 ++ e7 ++ e8.
+Proof. rewrite all_rules_with. apply rules_with_split. Qed.
+
 Lemma finish_done_inv st e : finish st = Done e -> r_errs st = e.
 Proof. unfold finish. destruct (r_abort st) as [[s|]|]; try discriminate. intros H. inversion H. reflexivity. Qed.
+
+(** ** validateOperations: an operation whose root type the schema lacks is a primary error *)
+Section OpsPrimary.
+  Variable q : quirks.
+  Variable A : document.
+  Notation step := (ops_step q A).
+
+  Lemma ops_step_mono acc d e : In e (r_errs (snd acc)) -> In e (r_errs (snd (step acc d))).
+  Proof.
+    destruct acc as [[anon seen] st]. destruct d as [ot n vars dirs sub | kw n np cond dirs sub]; [| exact (fun H => H)].
+    intros H. cbn [ops_step snd] in *.
+    destruct (match n with None => (Datatypes.S anon, seen, st) | Some (nm, p) => if mem nm seen then (anon, seen, add_errs st [err EOpDupName p]) else (anon, nm :: seen, st) end)
+      as [[anon1 seen1] st1] eqn:E1.
+    assert (In e (r_errs st1)) as H1.
+    { destruct n as [[nm p]|]; [destruct (mem nm seen) |]; inversion E1; subst; [simpl; apply in_or_app; left; exact H | exact H | exact H]. }
+    cbn [snd].
+    assert (In e (r_errs (match ss_ann sub with None => add_errs st1 [err EOpUnsupported (def_pos (DOp ot n vars dirs sub))] | Some _ => st1 end))) as H2.
+    { destruct (ss_ann sub); [exact H1 | simpl; apply in_or_app; left; exact H1]. }
+    destruct (is_subscription ot); [| exact H2].
+    destruct (add_selections q A [] (Some sub)) as [m v | e0 |]; [destruct (Nat.eqb (length m) 1); [exact H2 |] | | exact H2];
+      simpl; apply in_or_app; left; exact H2.
+  Qed.
+
+  Lemma ops_step_root acc d : root_ok d = false -> In (err EOpUnsupported (def_pos d)) (r_errs (snd (step acc d))).
+  Proof.
+    destruct acc as [[anon seen] st]. destruct d as [ot n vars dirs sub | kw n np cond dirs sub]; [| discriminate].
+    unfold root_ok. intros H. cbn [ops_step].
+    destruct (match n with None => (Datatypes.S anon, seen, st) | Some (nm, p) => if mem nm seen then (anon, seen, add_errs st [err EOpDupName p]) else (anon, nm :: seen, st) end)
+      as [[anon1 seen1] st1].
+    cbn [snd]. destruct (ss_ann sub); [discriminate |].
+    assert (In (err EOpUnsupported (def_pos (DOp ot n vars dirs sub))) (r_errs (add_errs st1 [err EOpUnsupported (def_pos (DOp ot n vars dirs sub))]))) as H2
+        by (simpl; apply in_or_app; right; left; reflexivity).
+    destruct (is_subscription ot); [| exact H2].
+    destruct (add_selections q A [] (Some sub)) as [m v | e0 |]; [destruct (Nat.eqb (length m) 1); [exact H2 |] | | exact H2];
+      simpl; apply in_or_app; left; exact H2.
+  Qed.
+
+  Lemma ops_fold_mono l : forall acc e, In e (r_errs (snd acc)) -> In e (r_errs (snd (fold_left step l acc))).
+  Proof. induction l as [|d l IH]; intros acc e H; [exact H |]. cbn [fold_left]. apply IH, ops_step_mono, H. Qed.
+
+  Lemma ops_fold_root l : forall acc d, In d l -> root_ok d = false ->
+    In (err EOpUnsupported (def_pos d)) (r_errs (snd (fold_left step l acc))).
+  Proof.
+    induction l as [|d0 l IH]; intros acc d Hin Hr; [destruct Hin |]. destruct Hin as [<- | Hd]; cbn [fold_left].
+    - apply ops_fold_mono, ops_step_root, Hr.
+    - apply IH; assumption.
+  Qed.
+
+  Theorem operations_primary_root errs :
+    rule_operations q A = Done errs -> primary errs = [] -> forall d, In d A -> root_ok d = true.
+  Proof.
+    unfold rule_operations. intros H P d Hd. destruct (root_ok d) eqn:Hr; [reflexivity | exfalso].
+    pose proof (ops_fold_root A (O, [], rst0) d Hd Hr) as Hin.
+    destruct (fold_left step A (O, [], rst0)) as [[anon seen] st]. cbn [snd] in Hin.
+    apply finish_done_inv in H.
+    assert (In (err EOpUnsupported (def_pos d)) errs) as He.
+    { rewrite <- H. destruct (Nat.ltb 0 anon); [| exact Hin].
+      destruct (filter is_op A) as [|d1 [|d2 r]]; [exact Hin | exact Hin | simpl; apply in_or_app; left; exact Hin]. }
+    assert (In (err EOpUnsupported (def_pos d)) (primary errs)) as Hp by (apply filter_In; split; [exact He | reflexivity]).
+    rewrite P in Hp. destruct Hp.
+  Qed.
+End OpsPrimary.
 
 (** ** no primary error: which rule groups are then silent *)
 Local Notation QO := (q_unwrap_obj repaired).
 Local Notation AD S F D := (pti_doc QO S F D).
-Theorem no_primary_then_silent pi S F D errs :
-  order_ok pi -> schema_ok S = true -> valid_root S D = true ->
-  all_rules repaired pi S F (pti_doc (q_unwrap_obj repaired) S F D) = Done errs -> primary errs = [] ->
+(** [rf]: the outcome of validateFields, of which only this is used: its errors begin with those of
+    the first visitor *)
+Definition fields_prefix (S : schema) (F : features) (D : document) (rf : outcome) : Prop :=
+  forall e2, rf = Done e2 ->
+             exists l, e2 = r_errs (inspect (fields_enter S F) pop (tree_doc (pti_doc (q_unwrap_obj repaired) S F D)) rst0) ++ l.
+
+Theorem no_primary_then_silent_gen pi S F D rf errs :
+  order_ok pi -> schema_ok S = true -> fields_prefix S F D rf ->
+  rules_with repaired pi S F (pti_doc (q_unwrap_obj repaired) S F D) rf = Done errs -> primary errs = [] ->
+  valid_root S D = true /\
   (forall d o, In d D -> In o (ssels_ss S F (model_def_scope S F d) (def_sub d)) -> good S (fst o)) /\
   r_errs (inspect (fields_enter S F) pop (tree_doc (pti_doc (q_unwrap_obj repaired) S F D)) rst0) = [] /\
   rule_fragment_declarations pi S F (pti_doc (q_unwrap_obj repaired) S F D) = [] /\
   rule_directives repaired S (pti_doc (q_unwrap_obj repaired) S F D) = Done [] /\
   rule_fragment_spreads repaired pi S F (pti_doc (q_unwrap_obj repaired) S F D) = Done [].
 Proof.
-  intros Hpi Hs Hroot Hall Hprim.
-  destruct (all_rules_split _ _ _ _ _ _ Hall) as [e1 [e2 [e3 [e5 [e6 [e7 [e8 [R1 [R2 [R3 [R5 [R6 [R7 [R8 ->]]]]]]]]]]]]]].
+  intros Hpi Hs Hrf Hall Hprim.
+  destruct (rules_with_split _ _ _ _ _ _ _ Hall) as [e1 [e2 [e3 [e5 [e6 [e7 [e8 [R1 [R2 [R3 [R5 [R6 [R7 [R8 ->]]]]]]]]]]]]]].
   rewrite !primary_app_nil in Hprim. destruct Hprim as [P1 [P2 [P3 [[P4 P5] [P6 [P7 P8]]]]]].
+  assert (valid_root S D = true) as Hroot.
+  { unfold valid_root. apply forallb_forall. intros d Hd.
+    pose proof (operations_primary_root repaired (AD S F D) e1 R1 P1 (pti_def QO S F d) (in_map _ _ _ Hd)) as Hr.
+    rewrite root_ok_pti in Hr. destruct d; [exact Hr | reflexivity]. }
+  split; [exact Hroot |].
   unfold schema_ok in Hs. apply andb_true_iff in Hs as [Hs Hs3]. apply andb_true_iff in Hs as [Hs1 Hs2].
   pose proof (schema_no_typename_spec S F Hs1) as Hnt.
   (* declarations and directives: all their errors are primary *)
@@ -221,16 +313,7 @@ Proof.
   assert (e7 = []) as -> by (apply (primary_nil_all _ (rule_directives_primary S (AD S F D) e7 R7) P7)).
   pose proof (proj1 (rule_fragment_declarations_iff pi Hpi S F D) Hdecl) as H551.
   (* the first field visitor: its errors are a prefix of the rule's *)
-  assert (exists l, e2 = r_errs (inspect (fields_enter S F) pop (tree_doc (AD S F D)) rst0) ++ l) as [l2 E2].
-  { unfold rule_fields in R2.
-    assert (exists l, r_errs (inspect (merge_enter repaired pi S (AD S F D)) (fun s => s) (tree_doc (AD S F D)) (inspect (fields_enter S F) pop (tree_doc (AD S F D)) rst0))
-                      = r_errs (inspect (fields_enter S F) pop (tree_doc (AD S F D)) rst0) ++ l) as [l Hl].
-    { apply (inspect_inv (fun st => exists l, r_errs st = r_errs (inspect (fields_enter S F) pop (tree_doc (AD S F D)) rst0) ++ l)).
-      - intros n _ st [l Hl]. unfold merge_enter. destruct n; try (exists l; exact Hl).
-        destruct (add_selections repaired (AD S F D) [] (Some s)) as [m v | e0 |]; [| exists (l ++ [e0]); simpl; rewrite Hl, app_assoc; reflexivity | exists l; exact Hl].
-        destruct (can_merge repaired pi S (AD S F D) (max_depth (AD S F D)) m); try (exists l; exact Hl). exists (l ++ [e]). simpl. rewrite Hl, app_assoc. reflexivity.
-      - exists []. rewrite app_nil_r. reflexivity. }
-    unfold finish in R2. destruct (r_abort _) as [[s|]|]; try discriminate. inversion R2; subst e2. exists l. exact Hl. }
+  destruct (Hrf e2 R2) as [l2 E2].
   subst e2. apply primary_app_nil in P2 as [P2 _]. rewrite fields_pass_errors in P2. rewrite primary_flat_map in P2.
   assert (forall d o, In d D -> In o (ssels_ss S F (model_def_scope S F d) (def_sub d)) -> primary (fe_ev1 S F (fst o) (pti_sel QO S F (fst o) (snd o))) = []) as Hprim1.
   { intros d o Hd Ho. rewrite flat_map_nil_iff in P2. specialize (P2 d Hd). rewrite primary_flat_map, flat_map_nil_iff in P2. apply (P2 o Ho). }
@@ -277,4 +360,46 @@ Proof.
     apply flat_map_nil_iff. intros d Hd. apply flat_map_nil_iff. intros o Ho.
     rewrite primary_flat_map, flat_map_nil_iff in Pv. specialize (Pv d Hd). rewrite primary_flat_map, flat_map_nil_iff in Pv.
     apply (primary_nil_all _ (sp_ev1_good pi S F (AD S F D) (fst o) _ (Hgood d o Hd Ho)) (Pv o Ho)).
+Qed.
+
+Lemma rule_fields_prefix pi S F D : fields_prefix S F D (rule_fields repaired pi S F (AD S F D)).
+Proof.
+  intros e2 R2.
+  unfold rule_fields in R2.
+    assert (exists l, r_errs (inspect (merge_enter repaired pi S (AD S F D)) (fun s => s) (tree_doc (AD S F D)) (inspect (fields_enter S F) pop (tree_doc (AD S F D)) rst0))
+                      = r_errs (inspect (fields_enter S F) pop (tree_doc (AD S F D)) rst0) ++ l) as [l Hl].
+    { apply (inspect_inv (fun st => exists l, r_errs st = r_errs (inspect (fields_enter S F) pop (tree_doc (AD S F D)) rst0) ++ l)).
+      - intros n _ st [l Hl]. unfold merge_enter. destruct n; try (exists l; exact Hl).
+        destruct (add_selections repaired (AD S F D) [] (Some s)) as [m v | e0 |]; [| exists (l ++ [e0]); simpl; rewrite Hl, app_assoc; reflexivity | exists l; exact Hl].
+        destruct (can_merge repaired pi S (AD S F D) (max_depth (AD S F D)) m); try (exists l; exact Hl). exists (l ++ [e]). simpl. rewrite Hl, app_assoc. reflexivity.
+      - exists []. rewrite app_nil_r. reflexivity. }
+    unfold finish in R2. destruct (r_abort _) as [[s|]|]; try discriminate. inversion R2; subst e2. exists l. exact Hl.
+Qed.
+
+Lemma rule_fields_m_prefix pi S F D : fields_prefix S F D (rule_fields_m repaired pi S F (AD S F D)).
+Proof.
+  intros e2 R2. unfold rule_fields_m in R2.
+  assert (exists l, r_errs (fst (inspect (merge_enter_m repaired pi S (AD S F D)) (fun s => s) (tree_doc (AD S F D)) (inspect (fields_enter S F) pop (tree_doc (AD S F D)) rst0, memo0)))
+                    = r_errs (inspect (fields_enter S F) pop (tree_doc (AD S F D)) rst0) ++ l) as [l Hl].
+  { apply (inspect_inv (fun st : rst * memo => exists l, r_errs (fst st) = r_errs (inspect (fields_enter S F) pop (tree_doc (AD S F D)) rst0) ++ l)).
+    - intros n _ st [l Hl]. unfold merge_enter_m. destruct n; try (exists l; exact Hl).
+      destruct (add_selections repaired (AD S F D) [] (Some s)) as [m v | e0 |]; [| exists (l ++ [e0]); simpl; rewrite Hl, app_assoc; reflexivity | exists l; exact Hl].
+      destruct (can_merge_m repaired pi S (AD S F D) (max_depth (AD S F D)) m (snd st)) as [[| e | s0 |] mm]; try (exists l; exact Hl).
+      exists (l ++ [e]). simpl. rewrite Hl, app_assoc. reflexivity.
+    - exists []. rewrite app_nil_r. reflexivity. }
+  apply finish_done_inv in R2. subst e2. exists l. exact Hl.
+Qed.
+
+Theorem no_primary_then_silent pi S F D errs :
+  order_ok pi -> schema_ok S = true ->
+  all_rules repaired pi S F (pti_doc (q_unwrap_obj repaired) S F D) = Done errs -> primary errs = [] ->
+  valid_root S D = true /\
+  (forall d o, In d D -> In o (ssels_ss S F (model_def_scope S F d) (def_sub d)) -> good S (fst o)) /\
+  r_errs (inspect (fields_enter S F) pop (tree_doc (pti_doc (q_unwrap_obj repaired) S F D)) rst0) = [] /\
+  rule_fragment_declarations pi S F (pti_doc (q_unwrap_obj repaired) S F D) = [] /\
+  rule_directives repaired S (pti_doc (q_unwrap_obj repaired) S F D) = Done [] /\
+  rule_fragment_spreads repaired pi S F (pti_doc (q_unwrap_obj repaired) S F D) = Done [].
+Proof.
+  intros Hpi Hs Hall Hprim. rewrite all_rules_with in Hall.
+  apply (no_primary_then_silent_gen pi S F D _ errs Hpi Hs (rule_fields_prefix pi S F D) Hall Hprim).
 Qed.
